@@ -51,6 +51,8 @@ type genConfig struct {
 	// TopLevelList makes program() also keep the top-level statements separately
 	// (fragment cutting, C10); no top-level return is generated before the end.
 	NoTry bool
+	// GlobalVar declares the global GV (assigned and read by the script).
+	GlobalVar bool
 	// CallMark emits call sites of script functions as placeholders that are
 	// later rendered either as in-script calls or as calls through the host
 	// (Invoker): the two variants of one script (C14).
@@ -76,7 +78,8 @@ type gen struct {
 	loop     int
 	mods     []srcModule
 	gmods    []*gmod
-	Top      []string // top-level statements
+	Top      []string   // top-level statements
+	TopVars  [][]string // names readable after the i-th top-level statement (non-function, non-module)
 	features map[string]bool
 	inModule bool
 	// noGrow: while set, string and array expressions reference no variable and
@@ -744,7 +747,22 @@ func (g *gen) genModule(idx int) {
 // program generates a whole main script. The top-level statements are also
 // kept in g.Top; the text returned ends with a return of all live top-level
 // variables so that state is observable through the result.
+func (g *gen) addTop(st string) {
+	g.Top = append(g.Top, st)
+	var names []string
+	for _, v := range g.scopes[0] {
+		if v.t == tFn || v.mod != nil {
+			continue
+		}
+		names = append(names, v.name)
+	}
+	g.TopVars = append(g.TopVars, names)
+}
+
 func (g *gen) program() (string, []srcModule) {
+	if g.cfg.GlobalVar {
+		g.declare(gvar{name: "GV", t: tInt})
+	}
 	if g.cfg.Modules {
 		for i, n := 0, g.t.Draw(3); i < n; i++ {
 			g.genModule(i)
@@ -753,32 +771,35 @@ func (g *gen) program() (string, []srcModule) {
 	n := 3 + g.t.Draw(g.cfg.MaxStmts)
 	for i := 0; i < n; i++ {
 		if g.cfg.Modules && i < 3 && g.t.Bool(1, 2) {
-			g.Top = append(g.Top, g.importStmt(0))
+			g.addTop(g.importStmt(0))
 			continue
 		}
 		if i == 1 && g.t.Bool(1, 3) {
 			a, b, c := g.fresh("K"), g.fresh("K"), g.fresh("K")
-			g.Top = append(g.Top, "const (\n\t"+a+" = iota\n\t"+b+"\n\t"+c+" = "+g.strLit()+"\n)\n")
+			st := "const (\n\t" + a + " = iota\n\t" + b + "\n\t" + c + " = " + g.strLit() + "\n)\n"
 			g.declare(gvar{name: a, t: tInt, konst: true})
 			g.declare(gvar{name: b, t: tInt, konst: true})
 			g.declare(gvar{name: c, t: tStr, konst: true})
+			g.addTop(st)
 			continue
 		}
 		if i == 2 && g.t.Bool(1, 3) {
 			a, b := g.fresh("w"), g.fresh("w")
-			g.Top = append(g.Top, "var ("+a+" = "+g.expr(tInt, 1)+", "+b+")\n")
+			st := "var (" + a + " = " + g.expr(tInt, 1) + ", " + b + ")\n"
 			g.declare(gvar{name: a, t: tInt})
+			g.declare(gvar{name: b, t: tAny})
+			g.addTop(st)
 			continue
 		}
-		g.Top = append(g.Top, g.stmt(0))
+		g.addTop(g.stmt(0))
 	}
 	if g.cfg.CallMark && !g.features["call"] {
 		// make sure every CallMark script has marked call sites
-		g.Top = append(g.Top, "fz := func(a, ...b) { zc := a; return func(x) { zc += x + len(b); return zc } }\n"+
-			"fy := \x01fz\x02"+g.expr(tInt, 1)+", 2\x03\n"+
-			"log(\x01fy\x023\x03, \x042\x02fy\x02"+g.expr(tInt, 1)+"\x03)\n")
+		g.addTop("fz := func(a, ...b) { zc := a; return func(x) { zc += x + len(b); return zc } }\n" +
+			"fy := \x01fz\x02" + g.expr(tInt, 1) + ", 2\x03\n" +
+			"log(\x01fy\x023\x03, \x042\x02fy\x02" + g.expr(tInt, 1) + "\x03)\n")
 	}
-	g.Top = append(g.Top, g.probe())
+	g.addTop(g.probe())
 	return sim.Prelude + strings.Join(g.Top, ""), g.mods
 }
 
